@@ -1,5 +1,21 @@
 import WuffsVerif.Common.Line
-/-! Line driver for C12 — stub, not built yet. -/
-open WuffsVerif.Line
+import WuffsVerif.Model.Indent
+/-! Line driver for C12.  Ops:
+  format <tabs 0|1> <spaces n> <hex>   -> ok <hex>      (lib/dumbindent FormatBytes(nil, src, opts))
+-/
+open WuffsVerif WuffsVerif.Line
 
-def main : IO Unit := runPure (fun _ => "bad-op")
+def c12Step (l : List String) : String :=
+  match l with
+  | ["format", tabs, spaces, hx] =>
+    match spaces.toInt?, fromHex hx with
+    | some n, some src =>
+      if tabs != "0" && tabs != "1" then "bad-op" else
+      let o : Indent.Opts := ⟨tabs == "1", n⟩
+      match Indent.formatFuel (src.length + 1) o src with
+      | some out => "ok " ++ toHex out
+      | none => "err fuel"
+    | _, _ => "bad-op"
+  | _ => "bad-op"
+
+def main : IO Unit := runPure c12Step
